@@ -1023,6 +1023,13 @@ func (s *Sim) Shutdown() {
 	s.mu.Unlock()
 }
 
+// IsDown reports whether Shutdown has been called.
+func (s *Sim) IsDown() bool {
+	s.mu.Lock()
+	defer s.mu.Unlock()
+	return s.down
+}
+
 // ParkedCount returns the number of goroutines waiting at yield points.
 func (s *Sim) ParkedCount() int {
 	s.mu.Lock()
